@@ -54,7 +54,11 @@ def gen_static(tape):
             events.append(["PULL", tape.draw(n_cons), tape.choice([None, 0, 1, 5, 1000, -50])])
     if tape.chance(1, 6):
         events.insert(0, ["PULL", 0, tape.choice([None, 0])])      # before any publication
-    return {"engine": "S", "consumers": cons, "events": events}
+    sc = {"engine": "S", "consumers": cons, "events": events}
+    if tape.chance(1, 4):
+        # storage pressure: the one publication of the static output lives in a spill file
+        sc["mem_limit"] = tape.choice([0, 0, 4])
+    return sc
 
 
 def run_static(sc):
@@ -64,6 +68,15 @@ def run_static(sc):
         viol.append({"oracle": oracle, "kind": kind, "msg": msg, "comp": ""})
 
     out = Output(name="src", info=Info(time=None, grid=NoGrid(), units="m"), static=True)
+    spill = None
+    if sc.get("mem_limit") is not None:
+        import os
+        import shutil
+        from ..world import scratch_dir
+        spill = os.path.join(scratch_dir(), "static-spill")
+        shutil.rmtree(spill, ignore_errors=True)
+        os.makedirs(spill, exist_ok=True)
+        out.memory_limit, out.memory_location = sc["mem_limit"], spill
     labels = {id(out): "src"}
     inputs, fac = [], []
     for ci, c in enumerate(sc["consumers"]):
@@ -132,6 +145,9 @@ def run_static(sc):
                 break
     finally:
         ins.uninstall()
+        if spill:
+            import shutil
+            shutil.rmtree(spill, ignore_errors=True)
     npull = sum(1 for x in log if x[0] == "PULL")
     return {"violations": viol, "digest": digest_of(log), "probes": {"static_pulls": npull}, "faults": {},
             "nontrivial": npull >= 3, "sig": digest_of(log), "sim_hours": 0, "cls": "S",
